@@ -138,3 +138,23 @@ def label_after_history(sc1: int, li: int, sc2: int, v: int) -> bool:
         return label not in table
     V.reached()
     return label in table and got == table[label]
+
+
+# ---- objects that are not labels at all (absent value, numbers, bytes, containers of a label): refused like any unknown label
+NON_LABELS = [None, True, False, 0, 5, 5.0, b"Low", ["Low"], ("Low",), {"Low"}, {"Low": 1}, float("nan")]
+NNL = len(NON_LABELS)
+
+
+def non_label_objects(sc: int, oi: int) -> bool:
+    """
+    pre: 0 <= sc < NSC and 0 <= oi < NNL
+    post: _
+    """
+    sc, oi = pick(sc, NSC), pick(oi, NNL)
+    try:
+        SPEC[sc][2](NON_LABELS[oi])
+    except (ValueError, TypeError):
+        V.reached()
+        return True
+    V.reached()
+    return False
